@@ -82,7 +82,7 @@ CHECKS["C19"] = dict(level="model_checking", design="5 C19",
 
 CHECKS["C13"] = dict(level="model_checking", design="5 C13",
    text="spec/Report.tla models the leader's fan-out of a cluster query (one step per critical section of the result loop: dispatch to a partition's single-use handler, row, retriable failure, partition result, the leader's time-out, finish) under a behaviour per partition (answers, no handler, fails after k rows, stalls after k rows, fails retriably) and a consumer that may stop early; TLC checks NeverSilentlyIncomplete and ReportExact for every interleaving (P = 2, 3) and exports, per fault vector, the reports the design allows. The vectors are replayed on an in-process cluster of the real code with harness-owned query handlers: a result with fewer rows than the fault-free run and neither an error nor missing-partition statistics is a violation, and the observed report must be one the specification allows (binding). The standalone part runs a query catalogue under deadlines already expired or passing while row k is handled, under the memory cap, and through the HTTP API with a 1 ns time-out / small response limits (status, body and the cached entry served to a second request).",
-   note="Ground truth = the same query on the same data without the fault. An HTTP 200 is accepted as 'told' only when its statistics list the missing partition (cluster faults); for deadlines, size limits and the memory cap a 200 with fewer rows is a violation. The gRPC transport between leader and follower is not exercised here.",
+   note="Ground truth = the same query on the same data without the fault. An HTTP 200 is accepted as 'told' only when its statistics list the missing partition (cluster faults); for deadlines, size limits and the memory cap a 200 with fewer rows is a violation. An rpc part repeats the follower failures with follower databases answering the leader through the real rpc client and server.",
    technique="TLA+ model checking (TLC) of the query fan-out + replay of the specification's fault vectors on the real cluster code; fault enumeration for deadlines, memory cap and the HTTP API")
 
 CHECKS["C11"] = dict(level="translation_validation", design="5 C11",
@@ -94,6 +94,11 @@ CHECKS["C16"] = dict(level="exploration", design="5 C16",
    text="spec/Robust.tla gives the abstract input space (statement kind; for SELECT a base shape and up to two of 38 malformation operators: dropped / duplicated / reordered clauses, truncation, unbalanced parentheses, unknown table / field / function, wrong arity and argument kind for the functions of sql.go, bad durations and time ranges, deep nesting, keywords as identifiers, unclosed quotes, huge numbers, control bytes, several statements; 32 classes of insert payloads x entry point) and the state machine that says what must survive (alive, pipeline running, every valid point reflected by the next probe; checked by TLC). TLC enumerates the inputs, each is rendered in several concrete variants and submitted under recover to sql.Parse, DB.Query (planner) + Iterate and the rpc query endpoint, resp. DB.Insert, DB.InsertRaw, the HTTP insert handler and the rpc insert stream, interleaved with valid points and probes; a panic, a crashed process or a probe that does not see every valid point is a violation.",
    note="Structural classes only - no byte-level fuzzing; functions that need external services (redis, geo, isp) only with wrong arities / argument kinds. Replication of the valid points is C12's subject; the standalone pipeline is probed here. Known finding D12 (far-future timestamps) is listed in known_findings.json and exercised in processes of its own under a memory limit.",
    technique="TLA+-enumerated input space (TLC) replayed on the real entry points under recover, with valid traffic and probes in between")
+
+CHECKS["C20"] = dict(level="exploration", design="5 C20",
+   text="spec/Wire.tla models one remote query over a lossless FIFO channel (query, field list, rows, one closing message with statistics or the follower's error) with the laws Lossless, WellFormed, ErrorReported and QueryIntact, checked by TLC. (i) Every expression tree TLC enumerates from spec/GenExpr.tla (the C05 oracle Data!Eval) travels in a field list through the real rpc.Codec: the decoded expression must have the same text, width and shift, accumulate the updates to the same state and expected value, and merge with states of the original; generated dimension/value maps over all scalar types, rows, series, points, follow, query and report messages are compared field by field. (ii) Generated and fixed queries are answered embedded, through the rpc client, and by follower databases answering a leader over rpc (points inserted through the rpc insert stream, followers fed by the rpc follow stream): the rows must be equal. (iii) The messages of every remote query, logged on both sides of the real gRPC transport, are validated against spec/TraceWire.tla by TLC.",
+   note="All nodes live in one process and talk over 127.0.0.1. Byte-level codec internals are observed only through behaviour. Leader and follower sessions of a partition are paired by order.",
+   technique="TLA+ model checking (TLC) of the remote-query protocol + trace validation of real rpc message sequences + TLC-enumerated codec round trips and rpc-vs-embedded differential runs")
 
 NOT_YET = {}
 
